@@ -65,3 +65,27 @@ Print Assumptions anchor_free_language_ignores_context.
 Theorem ci_fold_law : forall c d, (ci_eq true c d <-> fold c = fold d) /\ (ci_eq false c d <-> c = d).
 Proof. intros c d. split; [apply ci_eq_fold|apply ci_eq_false]. Qed.
 Print Assumptions ci_fold_law.
+
+(** sre-expand-reps (the rewriting of (= n x), (>= n x) and the bounded repeat into copies / optional copies / a star
+    before compilation), as mirrored by [expand_reps], has exactly the language "between from and to pieces" *)
+Theorem expand_reps_language : forall P from p s n,
+  (items_lang P (expand_reps from None) p s n <-> exists k, (from <= k)%nat /\ LPow P k p s n) /\
+  (forall t, (from <= t)%nat ->
+     (items_lang P (expand_reps from (Some t)) p s n <-> exists k, (from <= k /\ k <= t)%nat /\ LPow P k p s n)).
+Proof. intros. split; [apply expand_reps_unbounded|intros; apply expand_reps_bounded; assumption]. Qed.
+Print Assumptions expand_reps_language.
+
+(** regexp-match>=? (the preference used when two searchers meet, and at the accept state), as mirrored by
+    [match_ge]: total on well-formed vectors, and on the whole-match slots it prefers the leftmost start, then
+    the longest end -- the shortest when that end slot is registered non-greedy *)
+Theorem merge_preference_total : forall ng m1 m2 i, wf_vec m1 -> wf_vec m2 ->
+  match_ge ng i m1 m2 = true \/ match_ge ng i m2 m1 = true.
+Proof. exact match_ge_total. Qed.
+Print Assumptions merge_preference_total.
+
+Theorem merge_preference_leftmost_longest : forall ng s1 e1 s2 e2 r1 r2,
+  (s1 <= e1)%nat -> (s2 <= e2)%nat -> (s1, e1) <> (s2, e2) ->
+  (match_ge ng 0 (Some s1 :: Some e1 :: r1) (Some s2 :: Some e2 :: r2) = true <->
+   (s1 < s2)%nat \/ (s1 = s2 /\ if existsb (Nat.eqb 1) ng then (e1 <= e2)%nat else (e2 <= e1)%nat)).
+Proof. exact match_ge_leftmost_longest. Qed.
+Print Assumptions merge_preference_leftmost_longest.
